@@ -20,6 +20,11 @@ Decided (DESIGN.md section 5, C09):
     N2-retry-only-with-input-left    (stream functions) assuming "OK", no output (avail_out untouched, returned string empty) and
                                      avail_in == 0 -- the input ran dry inside a stream -- every path ends in a throw: neither another
                                      pull (endless loop) nor a normal return (truncated data accepted)
+    G1-no-eof-before-first-pull      (compressed formats: pull functions with a stream-end status) from the state each constructor
+                                     establishes -- constants as stored, a member initialised from a pointer parameter assumed
+                                     non-null, a member initialised from an integral parameter unknown (may be 0) -- the first read()
+                                     cannot return without having called the pull function: the object never starts out "finished"
+                                     (with X2: an empty chunk is returned only after a stream end was observed)
     S2-no-pull-again-over-data       under "more" read() does not call the pull function again while the chunk holds data (count >= 1 by
                                      convention) / without having looked at the count (stream functions): the next call would overwrite it
     O1-offset-is-compressed-position every Decompressor::set_offset() in a read() override is fed from a position function of the
@@ -76,7 +81,7 @@ from ..c08_util import in_io_layer
 from ..c09_util import (DECOMP, RTM, OPEN_CLOSE, dedupe, decompressor_classes, read_path_functions, method_of, pull_calls,
                         call_name, assume, walk_from, returned_local, stream_field, count_resizes, count_test_elements,
                         unconsumed_zero_guard, guard_signature, end_declarations, string_call_on, STRING_MUTATORS, addr_carrier,
-                        field_assigned_from, data_sources, handle_arg_is, helper_reaches, normalized, state_env, input_test_elements, EOF_PROBES, LOCAL_IGNORABLE, OFFSET_COMPRESSED, OFFSET_UNCOMPRESSED, file_has_more_env, resolve_alias, no_output_env, has_output_env, on_normal_path, is_stream_member, catch_all_handler, nodes_in_handler, must_pass, is_exit, scn, reaches,
+                        field_assigned_from, data_sources, handle_arg_is, helper_reaches, normalized, state_env, input_test_elements, initial_state_envs, fresh_string_env, seed_env, cumulative_resizes, EOF_PROBES, LOCAL_IGNORABLE, OFFSET_COMPRESSED, OFFSET_UNCOMPRESSED, file_has_more_env, resolve_alias, no_output_env, has_output_env, on_normal_path, is_stream_member, catch_all_handler, nodes_in_handler, must_pass, is_exit, scn, reaches,
                         assigned_from)
 from ..flow import path_search, describe_path
 
@@ -108,7 +113,8 @@ ASSUMPTIONS = ['status / count conventions of gzread, read, BZ2_bzRead, inflate,
                'come with zero bytes of output)',
                'failure conventions as tabulated in osmlint/errdisc.py (DESIGN appendix B)',
                'drivers/io_read.cpp instantiates every decompressor the library registers',
-               'an empty std::string is the end-of-data marker of the string queue (queue_util.hpp at_end_of_data)']
+               'an empty std::string is the end-of-data marker of the string queue (queue_util.hpp at_end_of_data)',
+               'G1: a pointer parameter a constructor stores (input buffer, FILE*) is non-null']
 
 
 # ------------------------------------------------------------------------------------------------ 1  ERRDISC
@@ -259,8 +265,13 @@ def _one_pull(fb, R, fn, call, pull, X):
     s1_ok = not o.exits
     msg = None
     if not s1_ok:
+        cum = cumulative_resizes(fn, call, pull, X)
         msg = ('a path from %s to a return does not cut the returned string to the number of bytes the library produced '
                '(stale bytes are delivered / the end-of-data test sees a wrong length): %s' % (name, E.describe(fn, o.exits[0])))
+        if cum:
+            msg = ('the returned string is cut to a RUNNING TOTAL of the stream (%s, %s), not to the number of bytes this call produced '
+                   '(buffer size - avail_out, or next_out - start of the chunk): equal only for the first chunk, afterwards every chunk '
+                   'carries stale / NUL bytes' % (fn.expr(cum[0]['id'])[:70], fn.loc(cum[0]['id'])))
     else:
         for r in valid:
             m = _mutated_after(fn, r, call, X, vids)
@@ -304,6 +315,31 @@ def _one_pull(fb, R, fn, call, pull, X):
                         % (name, pull.names.get('more', 'more'), what,
                            ': ' + E.describe(fn, o3.exits[0]) if (o3 is not None and o3.exits) else ''),
                         'OK without output and without input left always ends in a throw')
+
+    # ---- G1: the object does not start out "finished".  An empty chunk means end of data, and for a compressed format the end may
+    # only be believed after the library reported a stream end (X2 decides the assignments that declare it); so from the state
+    # every constructor establishes, read() must not be able to return without having asked the library at all.
+    if pull.stream_end is not None:
+        worst = None
+        inits = initial_state_envs(fb, fn.cls)
+        for (ctor, env0) in inits:
+            env = dict(seed_env(fn))
+            env.update(fresh_string_env(fn, call, X))
+            env.update(env0)
+            o0 = E.explore(fn, (fn.entry, 0), env, fb=fb, stop_at={call['id']})
+            if o0.truncated:
+                R.broken('%s: walk from the entry truncated' % fn.q)
+            elif o0.exits and worst is None:
+                worst = (ctor, o0.exits[0])
+        if inits:
+            R.check(worst is None, 'G1-no-eof-before-first-pull', '%s#%s:first-call-asks-the-library' % (fn.q, name), fn.site,
+                    'from the state the constructor establishes (%s) read() can return without ever calling %s: the members guarding the '
+                    'call are not known to enable it (a size / count parameter may be 0, a pointer parameter is assumed non-null), so '
+                    'an object over empty or truncated-to-nothing input reports a clean end of data although no stream end was ever '
+                    'observed: %s' % (worst[0].site if worst else '', name, E.describe(fn, worst[1]) if worst else ''),
+                    'from every constructor\'s state the first read() reaches %s' % name)
+        else:
+            R.broken('%s: no constructor body of %s found' % (fn.q, fn.cls))
 
     # ---- S2: a chunk that holds data is returned before the library is asked again (the next pull overwrites the buffer)
     if s1_ok:
@@ -701,6 +737,7 @@ def run(ctx):
     R.expect('N1-no-empty-chunk-while-more', 5)      # the same five under "more" (+ Bzip2Decompressor after the reopen, while it reopens)
     R.expect('N2-retry-only-with-input-left', 2)     # inflate, BZ2_bzDecompress
     R.expect('S2-no-pull-again-over-data', 5)
+    R.expect('G1-no-eof-before-first-pull', 3)       # BZ2_bzRead, inflate, BZ2_bzDecompress
     R.expect('O1-offset-is-compressed-position', 2)  # 3 today (Gzip, Bzip2, No); a decompressor may stop reporting offsets
     R.expect('X1-stream-end-continues', 3)           # BZ2_bzRead inflate BZ2_bzDecompress
     R.expect('X2-end-only-when-input-consumed', 3)   # one declaration per stream-end-aware read()
@@ -728,7 +765,9 @@ def _selftest(fb, R):
     read_thread_rules(fb, R)
     # the conforming twins must stay silent: several rules fire on today's tree, this is their evidence that they can pass
     wrong = [(i.rule, i.key) for i in R.instances.values() if not i.ok and '::Good' in i.key]
-    need = [('X5-probed-byte-pushed-back', NS + 'GoodBzip2Decompressor::read#fgetc-byte-pushed-back'),
+    need = [('G1-no-eof-before-first-pull', NS + 'GoodGzipBufferDecompressor::read#inflate:first-call-asks-the-library'),
+            ('G1-no-eof-before-first-pull', NS + 'GoodBzip2Decompressor::read#BZ2_bzRead:first-call-asks-the-library'),
+            ('X5-probed-byte-pushed-back', NS + 'GoodBzip2Decompressor::read#fgetc-byte-pushed-back'),
             ('O1-offset-is-compressed-position', NS + 'GoodBzip2Decompressor::read#offset-source'),
             ('N2-retry-only-with-input-left', NS + 'GoodGzipBufferDecompressor::read#inflate:Z_OK:input-exhausted'),
             ('S2-no-pull-again-over-data', NS + 'GoodGzipBufferDecompressor::read#inflate:Z_OK'),
@@ -760,7 +799,7 @@ def _selftest(fb, R):
 
 SELFTESTS = [(r, 'c09_decomp.cpp', _selftest) for r in (
     'E1-read-error-reaches-throw', 'E1-nothrow-explicit-discard', 'S1-chunk-length-is-library-count', 'N1-no-empty-chunk-while-more',
-    'N2-retry-only-with-input-left', 'S2-no-pull-again-over-data', 'O1-offset-is-compressed-position',
+    'N2-retry-only-with-input-left', 'S2-no-pull-again-over-data', 'O1-offset-is-compressed-position', 'G1-no-eof-before-first-pull',
     'X1-stream-end-continues', 'X2-end-only-when-input-consumed', 'X3-unused-copied-before-close', 'X4-reopen-receives-unused',
     'X5-probed-byte-pushed-back',
     'K1-close-closes-library-handle', 'K2-handle-reset-before-throw', 'T1-read-thread-closes-in-try', 'T2-every-chunk-forwarded')]
